@@ -91,6 +91,24 @@ fn full_table(r: &HandRange, seats: usize) -> u64 {
     lo as u64 + hi.unwrap_or(0) as u64 + v.len() as u64
 }
 
+/// "formatted" includes the format specifications a caller may write: widths shorter and longer
+/// than the text, alignments, fills, precisions.  Only "returns" is demanded of them.
+fn format_specs<T: std::fmt::Display>(x: &T) -> usize {
+    let mut n = 0;
+    n += format!("{:1}", x).len();
+    n += format!("{:<8}", x).len();
+    n += format!("{:>3}", x).len();
+    n += format!("{:^12}", x).len();
+    n += format!("{:*^5}", x).len();
+    n += format!("{:40}", x).len();
+    n += format!("{:.1}", x).len();
+    n += format!("{:.0}", x).len();
+    n += format!("{:6.2}", x).len();
+    n += format!("{:>1$}", x, 2).len();
+    n += format!("{:<300}", x).len();
+    n
+}
+
 fn content_of(what: &str, src: &str, combos: &[(CardPair, f32)]) -> Result<(), Fail> {
     for (p, w) in combos {
         if p[0] == p[1] {
@@ -130,10 +148,12 @@ pub fn check(mode: Mode, s: &str) -> CheckResult {
     if let Some(Ok(c)) = guarded!("parse::<Card>", s.parse::<Card>()) {
         cls |= 4;
         guarded!("Card::to_string", c.to_string());
+        guarded!("Card formatted with width/alignment/precision specs", format_specs(&c));
     }
     if let Some(Ok(p)) = guarded!("parse::<CardPair>", s.parse::<CardPair>()) {
         cls |= 8;
         guarded!("CardPair::to_string", p.to_string());
+        guarded!("CardPair formatted with width/alignment/precision specs", format_specs(&p));
         if mode == Mode::Content {
             content_of("card pair", s, &[(p, 1.0)])?;
         }
@@ -141,6 +161,7 @@ pub fn check(mode: Mode, s: &str) -> CheckResult {
     if let Some(Ok(t)) = guarded!("parse::<HandRangeToken>", s.parse::<HandRangeToken>()) {
         cls |= 16;
         guarded!("HandRangeToken::to_string", t.to_string());
+        guarded!("HandRangeToken formatted with width/alignment/precision specs", format_specs(&t));
         if let Some(combos) = guarded!("HandRangeToken::into_iter", t.into_iter().collect::<Vec<_>>()) {
             if mode == Mode::Content {
                 content_of("token", s, &combos)?;
@@ -159,6 +180,9 @@ pub fn check(mode: Mode, s: &str) -> CheckResult {
             content_of("range", s, &combos)?;
         }
         guarded!("HandRange::to_string", r.to_string());
+        if n <= 200 {
+            guarded!("HandRange formatted with width/alignment/precision specs", format_specs(&r));
+        }
         guarded!("HandRange::rank_pairs", r.rank_pairs());
         guarded!("HandRange::orphan_card_pairs", r.orphan_card_pairs());
         // hand-off to the evaluator
@@ -341,6 +365,33 @@ pub fn weight_literal_strings() -> Vec<String> {
     v
 }
 
+/// numbers in and outside [0,1] written in other notations (percent, exponent, sign, suffix,
+/// fraction, other radix) after the colon of one token of each shape: whatever the grammar accepts
+/// now or later, an accepted weight must lie in [0,1]
+pub fn decorated_weight_strings() -> Vec<String> {
+    let shapes = ["AA", "QQ+", "88-66", "JTs", "A9s+", "AQo-A9o", "AsKs"];
+    let nums = ["0", "1", "0.5", "1.0", "1.5", "2", "9", "10", "50", "99", "99.9", "100", "100.0", "100.5", "100.01", "101", "150", "1000", "00.5", "01", "1.00001", "0.99999"];
+    let pre = ["", "+", "-", ".", "0x", " "];
+    let post = ["", "%", "%%", " %", "e0", "e1", "e-1", "E2", "e+0", "f", "f32", "d", "x", "/1", "/2", "/100", "\u{2030}", "\u{ff05}", "pct", "p"];
+    let mut v = vec![];
+    for (i, sh) in shapes.iter().enumerate() {
+        for n in nums {
+            for a in pre {
+                for b in post {
+                    if a.is_empty() && b.is_empty() {
+                        continue;
+                    }
+                    // every combination on the first shape, a third of them on the others
+                    if i == 0 || (n.len() + a.len() * 3 + b.len() * 5 + i) % 3 == 0 {
+                        v.push(format!("{}:{}{}{}", sh, a, n, b));
+                    }
+                }
+            }
+        }
+    }
+    v
+}
+
 const SPICE: [&str; 28] = [
     "é", "€", "😀", "\u{80}", "\u{0}", "\u{301}", "A", "2", "s", ":", "+", "-", ",", " ", ".", "1",
     // characters that Unicode-aware classes (\d, \w, case-insensitive matching) accept
@@ -502,7 +553,7 @@ pub fn run(ctx: &mut Ctx, mode: Mode) {
     let tier = ctx.tier;
     match mode {
         Mode::Total => {
-            ctx.rule = "strings: (1) every string of length 0-3 (thorough 0-4) over the 32-symbol alphabet ranks + 'shdco+-:.,01' + space + é (2 bytes) + € (3) + 😀 (4) + 'a','k','S' (wrong-case letters); (2) every string matching a token shape with arbitrary ranks - XY, XY+, XYk, XYk+, XY-ZW, XYk-ZWk', all 52x52 card-pair texts incl. both cards equal - without and with ':0.5', and the short shapes in every mix of upper- and lower-case letters; every single and double substitution of a notation character by a Unicode look-alike of its class (decimal digits of other scripts, full-width forms, Kelvin sign, long s, dashes, ...) in valid texts of every shape and weight form; every string made of a rank letter and two arbitrary printable ASCII characters (thorough: all 857,375 three-character printable strings); (3) proptest: valid notation with one or two characters inserted/replaced/deleted at any offset (multi-byte, NUL, combining, notation characters), comma lists mixing valid tokens with junk and the degenerate spans '22-AA','KAs+','2As+', arbitrary Unicode, weight literals, over-long inputs (up to 10^5 characters, 10^4 commas, 2,000 tokens). Oracle under catch_unwind: parse as Rank, Suit, Card, CardPair, HandRangeToken, HandRange returns; every Ok value is formatted, expanded, decomposed (rank_pairs, orphan_card_pairs) and drained through FlopExhaustiveEvaluator (alone on the first positions and to the very end - the whole enumeration for ranges of <= 24 combos, the last turn rows otherwise -, beside a fixed player, twice, at seats 0 and 2 around a disjoint player, as a full table of ten and of six copies - construction, size_hint() and an empty collect only; size_hint() is also asked before, during and after every drain -, and completely on a monotone and on a paired low flop for ranges of <= 60 combos). Non-trivial = accepted by some parser, or contains a multi-byte character, or has a token shape; distinct by string.".into();
+            ctx.rule = "strings: (1) every string of length 0-3 (thorough 0-4) over the 32-symbol alphabet ranks + 'shdco+-:.,01' + space + é (2 bytes) + € (3) + 😀 (4) + 'a','k','S' (wrong-case letters); (2) every string matching a token shape with arbitrary ranks - XY, XY+, XYk, XYk+, XY-ZW, XYk-ZWk', all 52x52 card-pair texts incl. both cards equal - without and with ':0.5', and the short shapes in every mix of upper- and lower-case letters; every single and double substitution of a notation character by a Unicode look-alike of its class (decimal digits of other scripts, full-width forms, Kelvin sign, long s, dashes, ...) in valid texts of every shape and weight form; every string made of a rank letter and two arbitrary printable ASCII characters (thorough: all 857,375 three-character printable strings); (3) proptest: valid notation with one or two characters inserted/replaced/deleted at any offset (multi-byte, NUL, combining, notation characters), comma lists mixing valid tokens with junk and the degenerate spans '22-AA','KAs+','2As+', arbitrary Unicode, weight literals, numbers in other notations after the colon (percent, exponent, sign, suffix, fraction, radix prefix; values inside and outside [0,1]), over-long inputs (up to 10^5 characters, 10^4 commas, 2,000 tokens). Oracle under catch_unwind: parse as Rank, Suit, Card, CardPair, HandRangeToken, HandRange returns; every Ok value is formatted (plain and through eleven width/alignment/fill/precision specifications), expanded, decomposed (rank_pairs, orphan_card_pairs) and drained through FlopExhaustiveEvaluator (alone on the first positions and to the very end - the whole enumeration for ranges of <= 24 combos, the last turn rows otherwise -, beside a fixed player, twice, at seats 0 and 2 around a disjoint player, as a full table of ten and of six copies - construction, size_hint() and an empty collect only; size_hint() is also asked before, during and after every drain -, and completely on a monotone and on a paired low flop for ranges of <= 60 combos). Non-trivial = accepted by some parser, or contains a multi-byte character, or has a token shape; distinct by string.".into();
         }
         Mode::Content => {
             ctx.rule = "same string generators as C09 plus every weight literal [01](.d{1,3})? on one token of each shape and generated literals (1.0..01, 0.99.., 40-digit fractions, exponents, NaN/inf). Oracle: every combo of every Ok card pair / token / range has two different cards and a weight w with 0 <= w <= 1; evaluator runs over the parsed ranges (alone, beside a fixed player, the range twice) yield only showdowns with probability in [0,1] and 5+2n pairwise distinct cards. Panics are C09's subject and skipped here. Non-trivial = the string parses to a card pair, token or non-empty range; distinct by string.".into();
@@ -557,6 +608,11 @@ pub fn run(ctx: &mut Ctx, mode: Mode) {
         let n = w.len() as u64;
         ctx.run_enum_brief(StreamCfg::new("weight_literals", CLASSES, n), n, true, |i| w[i as usize].clone(), &f, brief);
     }
+    // numbers in other notations after the colon (both properties: C09 wants no panic, C10 a
+    // weight in [0,1] whenever such a text is accepted)
+    let dw = decorated_weight_strings();
+    let n = dw.len() as u64;
+    ctx.run_enum_brief(StreamCfg::new("decorated_weights", CLASSES, n), n, true, |i| dw[i as usize].clone(), &f, brief);
     // (3) proptest streams
     let c = tier.pick(12_000, 200_000);
     ctx.run_random_brief(StreamCfg::new("mutated_notation", CLASSES, c).shrink(500), mutated_strategy, &f, brief);
